@@ -298,7 +298,8 @@ def p_shape(max_leaves=3, max_unary=2, leaves=LEAVES, unary=UNARY):
 TEST_PATTERNS = ['a', 'abc', 'a|b', 'a*', 'a+', 'a?', 'a{3}', '(ab)*', '(a|b)*', '[abc]', '[a-c]', '[^abc]', '[^a-c]', '[_a-zA-Z][_a-zA-Z0-9]*', '[1-9][0-9]*', '[0-9]+',
                  '\\|', '\\x20', '\\x2', '\\x', '.', 'a.c', '[a\\]]', '[\\x41-\\x43]', '[a\\-z]', 'ab|cd', '0|[1-9][0-9]*',
                  '[0-9]+\\.[0-9]+', '(a|b)c', 'a(b|c)*d', '(ab|a)c', 'x{2}y{0}z', '[^\\x00-\\x1f]+',
-                 'ab|abc', 'abc|ab', 'ab|abcd|abc', '(a|ab|bc)+', '(ab?|bc)+', 'a(bc)?|ab', 'if|ifx|[a-z]+', '(ab|abc)d', 'abc?|ab+', 'a+|(ab?)+', '(ab|c?){3}', '[0-9]+(\\.[0-9]+)?']
+                 'ab|abc', 'abc|ab', 'ab|abcd|abc', '(a|ab|bc)+', '(ab?|bc)+', 'a(bc)?|ab', 'if|ifx|[a-z]+', '(ab|abc)d', 'abc?|ab+', 'a+|(ab?)+', '(ab|c?){3}', '[0-9]+(\\.[0-9]+)?',
+                 '[\\x70-\\x90]', '[a-\\xff]+', '[\\x80-\\xff]x', '[^\\x7e-\\x81]', '[\\x7f-\\x80]*a']   # ranges that cross or touch the 0x7f / 0x80 (signed char) boundary
 D6_PATTERNS = ['a*a', '(ab)*a', 'a?a', '[a-c]*c', 'a*b*a', '(a|b)*abb', 'a+a', '(a|ab)(c|bcd)']
 
 def pool_parts():
